@@ -446,6 +446,15 @@ WriteReturn(m0, e) ==
             ELSE mF
   IN mG
 
+\* F4's signature: some file of the image is shorter (damaged tail, or fewer bytes) than the name of the NEXT
+\* CHUNK EVER CREATED accounts for -- the successor existed before the predecessor's tail was durable.
+ShortPred(m, img) ==
+  \E k \in 1..(Len(img) - 1) : img[k][4] # "none" \/ img[k][1] + img[k][2] + img[k][3] < img[k + 1][1]
+\* not F4: a chunk that was created between two files of the image is absent from it (files were not
+\* removed oldest-first, or a middle file vanished)
+Hole(m, img) ==
+  \E k \in 1..(Len(img) - 1) : \E c \in KnownCks(m) : img[k][1] < c /\ c < img[k + 1][1]
+
 OpenReturn(m0, e) ==
   LET m == Cnt(m0, "opens")
       rc == e.rc
@@ -465,8 +474,7 @@ OpenReturn(m0, e) ==
             \* predecessor's tail was written/durable)
             Viol(m, "C05", "open_failed_after_crash", e,
                  [res |-> e.res, cls |-> e.cls, dir |-> e.dir, img |-> m.img,
-                  short_pred |-> \E k \in 1..(Len(m.img) - 1) :
-                                    m.img[k][4] # "none" \/ m.img[k][1] + m.img[k][2] + m.img[k][3] < m.img[k + 1][1]])
+                  short_pred |-> ShortPred(m, m.img), hole |-> Hole(m, m.img)])
        ELSE IF m.faulted THEN [Note(m, "open_failed_after_fault", e) EXCEPT !.tainted = TRUE]
        ELSE Viol(m, IF m.rejSeen THEN "C06" ELSE "C02", "open_failed", e, [res |-> e.res, dir |-> e.dir])
   ELSE
@@ -811,14 +819,16 @@ ProbeStep(m0, e) ==
        THEN IF e.same THEN m ELSE ViolKeep(m, "C10", "refused_open_modified_files", e, [img |-> e.img])
        ELSE ViolKeep(m, "C05", "open_failed_after_crash", e,
                      [res |-> e.res, cls |-> e.cls, dir |-> e.files_after, img |-> e.img,
-                      short_pred |-> \E k \in 1..(Len(e.img) - 1) :
-                                        e.img[k][4] # "none" \/ e.img[k][1] + e.img[k][2] + e.img[k][3] < e.img[k + 1][1]])
+                      short_pred |-> ShortPred(m, e.img), hole |-> Hole(m, e.img)])
   ELSE
   LET o == e.obs
       ks == {k \in m.acked..m.nacc : k >= m.vbase /\ RefView(m.views[k - m.vbase + 1]) = ObsView(o)}
       inPend == ObsView(o) \in PendingViews(m)
   IN
-  IF o.esr # "ok" THEN ViolKeep(m, "C03", "read_error_after_recovery", e, [esr |-> o.esr, img |-> e.img])
+  IF o.esr # "ok"
+  THEN \* under small cache limits an unreadable live entry is C07's subject, otherwise C03's
+       ViolKeep(m, IF m.cfg.ci >= 0 \/ m.cfg.cc >= 0 THEN "C07" ELSE "C03", "read_error_after_recovery", e,
+                [esr |-> o.esr, img |-> e.img, f5 |-> F5Class(m, o.cache.sev)])
   ELSE IF ks = {} /\ ~inPend
   THEN ViolKeep(m, "C03", "recovered_state_is_no_acked_prefix", e,
                 [got |-> ObsView(o), acked |-> m.acked, nacc |-> m.nacc, img |-> e.img,
@@ -829,7 +839,12 @@ ProbeStep(m0, e) ==
   ELSE \* the continuation (append the next entry, flush, reopen) must yield recovered + that entry
        LET ent == e.cont.entry
            want == [st |-> [o.st EXCEPT !.l = <<ent[1], ent[2]>>], es |-> Append(o.es, ent)]
-       IN IF e.cont.obs2.esr # "ok" \/ ObsView(e.cont.obs2) # want
+       IN IF e.cont.obs1.esr # "ok" \/ ObsView(e.cont.obs1) # want
+          THEN \* C07: every live entry readable right after a write on the recovered store, whatever the cache limits
+               ViolKeep(m, IF m.cfg.ci >= 0 \/ m.cfg.cc >= 0 THEN "C07" ELSE "C05", "read_after_recovery_and_write", e,
+                        [got |-> ObsView(e.cont.obs1), esr |-> e.cont.obs1.esr, want |-> want, img |-> e.img,
+                         f5 |-> F5Class(m, e.cont.obs1.cache.sev)])
+          ELSE IF e.cont.obs2.esr # "ok" \/ ObsView(e.cont.obs2) # want
           THEN ViolKeep(m, "C05", "recovered_store_inconsistent_after_continuation", e,
                         [got |-> ObsView(e.cont.obs2), want |-> want, img |-> e.img])
           ELSE m
@@ -867,11 +882,13 @@ MonInit == [RunInit(Out0, [run |-> 0, mode |-> "none"]) EXCEPT !.out.cnt.runs = 
 \* The recorded known findings (kept in step with /verif/known_findings.json): a violation record that
 \* satisfies one of these narrow predicates is a defect of the code that is already on file.
 KnownFinding(v) ==
-  \/ /\ v.p = "C07" /\ v.k \in {"read_error", "entries_mismatch", "read_mismatch", "iter_error", "iter_mismatch"}
+  \/ /\ v.p = "C07" /\ v.k \in {"read_error", "entries_mismatch", "read_mismatch", "iter_error", "iter_mismatch",
+               "read_error_after_recovery", "read_after_recovery_and_write"}
      /\ v.d.f5                                                                                   \* F5
   \/ /\ v.p = "C16" /\ v.k = "panic" /\ v.d.at_integer_limit
      /\ v.d.res = "panic:attempt to add with overflow"                                           \* F2c
-  \/ /\ v.p = "C05" /\ v.k = "open_failed_after_crash" /\ v.d.cls \in {"gap", "empty_chunk"} /\ v.d.short_pred   \* F4
+  \/ /\ v.p = "C05" /\ v.k = "open_failed_after_crash" /\ v.d.cls \in {"gap", "empty_chunk"}
+     /\ v.d.short_pred /\ ~v.d.hole                                                              \* F4
   \/ /\ v.p = "C09" /\ v.k \in {"corruption_absorbed", "refused_open_modified_other_files"}
      /\ v.d.past_eof                                                                             \* F6
 =============================================================================
